@@ -114,16 +114,55 @@ func (c *Ctx) c02Opt() error {
 
 // ---------------------------------------------------------------- rule windows on the real VM
 
-var mapRe = regexp.MustCompile(`map\[([^\[\]]*)\]`)
-
 // goatlang prints a map by iterating the underlying Go map, i.e. in random order; renderings are
-// compared with the entries of every innermost map[...] sorted
+// compared with the entries of every map[...] (nested ones too) sorted
 func canonMaps(s string) string {
-	return mapRe.ReplaceAllStringFunc(s, func(m string) string {
-		f := strings.Fields(m[4 : len(m)-1])
-		sort.Strings(f)
-		return "map[" + strings.Join(f, " ") + "]"
-	})
+	var out strings.Builder
+	for i := 0; i < len(s); {
+		if strings.HasPrefix(s[i:], "map[") {
+			// find the matching bracket
+			depth, j := 0, i+3
+			for ; j < len(s); j++ {
+				if s[j] == '[' {
+					depth++
+				} else if s[j] == ']' {
+					depth--
+					if depth == 0 {
+						break
+					}
+				}
+			}
+			if j >= len(s) {
+				out.WriteString(s[i:])
+				break
+			}
+			inner := canonMaps(s[i+4 : j])
+			// split on spaces at nesting depth 0
+			var parts []string
+			d, start := 0, 0
+			for k := 0; k < len(inner); k++ {
+				switch inner[k] {
+				case '[', '{':
+					d++
+				case ']', '}':
+					d--
+				case ' ':
+					if d == 0 {
+						parts = append(parts, inner[start:k])
+						start = k + 1
+					}
+				}
+			}
+			parts = append(parts, inner[start:])
+			sort.Strings(parts)
+			out.WriteString("map[" + strings.Join(parts, " ") + "]")
+			i = j + 1
+			continue
+		}
+		out.WriteByte(s[i])
+		i++
+	}
+	return out.String()
 }
 
 func showVals(vm *goat.VM, vs []goat.Value) string {
